@@ -27,8 +27,8 @@ theorem setTbl_tbl (s : Sess) (k k' : Kind) (t : Table) : (s.setTbl k t).tbl k' 
 theorem called_eq (s : Sess) (f : Nat) : s.called f = (match s.futs[f]? with | some x => x.cell.isSome | none => false) := rfl
 
 theorem Inv'.congr {s s' : Sess} (h : Inv' s) (ht : ∀ k, s'.tbl k = s.tbl k) (hs : s'.subs = s.subs)
-    (hf : s'.futs = s.futs) (hi : s'.issued = s.issued) : Inv' s' := by
-  refine ⟨h.keys.same hi (fun k => by rw [ht k]; exact List.Sublist.refl _), ?_, ?_, ?_⟩
+    (hf : s'.futs = s.futs) (hi : s'.issued = s.issued) (hq : CbqOk s') : Inv' s' := by
+  refine ⟨h.keys.same hi (fun k => by rw [ht k]; exact List.Sublist.refl _), ?_, ?_, ?_, hq⟩
   · intro x hx; exact h.count x (hf ▸ hx)
   · refine h.subs.of_le (by rw [hf]; exact Nat.le_refl _) (fun x => ?_)
     simp [occ, hs, ht]
@@ -37,8 +37,8 @@ theorem Inv'.congr {s s' : Sess} (h : Inv' s) (ht : ∀ k, s'.tbl k = s.tbl k) (
 /-- tables may shrink, attached handlers may shrink, futures may be rewritten in place keeping `Fut.ok` -/
 theorem Inv'.shrink {s s' : Sess} (h : Inv' s) (hi : s'.issued = s.issued)
     (ht : ∀ k, (s'.tbl k).Sublist (s.tbl k)) (ho : ∀ x : Nat, (objsOf s'.subs).count x ≤ (objsOf s.subs).count x)
-    (hl : s.futs.length ≤ s'.futs.length) (hc : ∀ x ∈ s'.futs, x.oldIn s ∨ x.ok) : Inv' s' := by
-  refine ⟨h.keys.same hi (fun k => (ht k).map _), h.count.of_forall hc, ?_, ?_⟩
+    (hl : s.futs.length ≤ s'.futs.length) (hc : ∀ x ∈ s'.futs, x.oldIn s ∨ x.ok) (hq : CbqOk s') : Inv' s' := by
+  refine ⟨h.keys.same hi (fun k => (ht k).map _), h.count.of_forall hc, ?_, ?_, hq⟩
   · refine h.subs.of_le (by omega) (fun x => ?_)
     have := ((ht .subscribe).map (·.2.fut)).count_le x
     have := ho x
@@ -51,15 +51,26 @@ theorem Clean.single {o : SOut} (h1 : o ≠ .raise_ .alreadyCalled) (h2 : o ≠ 
 
 theorem emitCb_fields (s : Sess) (o : SOut) :
     (∀ k, (emitCb s o).1.tbl k = s.tbl k) ∧ (emitCb s o).1.subs = s.subs ∧ (emitCb s o).1.futs = s.futs ∧
-    (emitCb s o).1.issued = s.issued ∧ ((emitCb s o).2 = [o] ∨ (emitCb s o).2 = []) := by
+    (emitCb s o).1.issued = s.issued ∧ ((emitCb s o).2 = [o] ∨ (emitCb s o).2 = []) ∧
+    ((emitCb s o).1.cbq = s.cbq ∨ (emitCb s o).1.cbq = s.cbq ++ [o]) := by
   unfold emitCb; split
   · simp
-  · refine ⟨fun k => by cases k <;> rfl, rfl, rfl, rfl, Or.inr rfl⟩
+  · refine ⟨fun k => by cases k <;> rfl, rfl, rfl, rfl, Or.inr rfl, Or.inr rfl⟩
 
-theorem emitCb_inv {s : Sess} (h : Inv s) {o : SOut} (ho : reqIdOf o = none) (hc : Clean [o]) :
+theorem emitCb_cbq {s : Sess} (h : CbqOk s) {o : SOut} (hq : cleanB o = true ∧ isInvoke o = false) : CbqOk (emitCb s o).1 := by
+  obtain ⟨_, _, _, _, _, f6⟩ := emitCb_fields s o
+  rcases f6 with e | e <;> rw [CbqOk, e]
+  · exact h
+  · intro x hx
+    rcases List.mem_append.mp hx with hx | hx
+    · exact h x hx
+    · simp at hx; subst hx; exact hq
+
+theorem emitCb_inv {s : Sess} (h : Inv s) {o : SOut} (ho : reqIdOf o = none) (hq : cleanB o = true ∧ isInvoke o = false) :
     InvRel s (emitCb s o).2 (emitCb s o).1 := by
-  obtain ⟨f1, f2, f3, f4, f5⟩ := emitCb_fields s o
-  refine ⟨emitCb_idrel h.1 ho, h.2.congr f1 f2 f3 f4, ?_, by rw [f3]; exact Nat.le_refl _⟩
+  have hc : Clean [o] := Clean.of_all (by simp [hq.1])
+  obtain ⟨f1, f2, f3, f4, f5, _⟩ := emitCb_fields s o
+  refine ⟨emitCb_idrel h.1 ho, h.2.congr f1 f2 f3 f4 (emitCb_cbq h.2.cbq hq), ?_, by rw [f3]; exact Nat.le_refl _⟩
   rcases f5 with e | e <;> rw [e]
   · exact hc
   · exact Clean.nil
@@ -91,7 +102,7 @@ theorem settle_inv {s : Sess} (h : Inv s) {f : Nat} (hf : f < s.futs.length) (hc
   rw [settle_open hx hc]
   have hnew : Fut.ok { s.futs[f] with cell := some o, count := s.futs[f].count + 1 } := by simp [Fut.ok, hcnt]
   have key : Inv' { s with futs := s.futs.set f { s.futs[f] with cell := some o, count := s.futs[f].count + 1 } } := by
-    refine h.2.shrink rfl (fun k => by cases k <;> exact List.Sublist.refl _) (fun x => Nat.le_refl _) (by simp) ?_
+    refine h.2.shrink rfl (fun k => by cases k <;> exact List.Sublist.refl _) (fun x => Nat.le_refl _) (by simp) ?_ h.2.cbq
     intro x hx'
     simp only at hx'
     rcases List.mem_or_eq_of_mem_set hx' with h1 | h1
@@ -100,8 +111,8 @@ theorem settle_inv {s : Sess} (h : Inv s) {f : Nat} (hf : f < s.futs.length) (hc
   have hcl : Clean [SOut.complete f o] := Clean.single (by simp) (by simp) (by simp) (by simp)
   split
   · have e := emitCb_fields { s with futs := s.futs.set f { s.futs[f] with cell := some o, count := s.futs[f].count + 1 } } (.callback f o)
-    obtain ⟨f1, f2, f3, f4, f5⟩ := e
-    refine ⟨Inv'.congr key f1 f2 f3 f4, ?_, by rw [f3]; simp⟩
+    obtain ⟨f1, f2, f3, f4, f5, _⟩ := e
+    refine ⟨Inv'.congr key f1 f2 f3 f4 (emitCb_cbq key.cbq (by simp [cleanB, isInvoke])), ?_, by rw [f3]; simp⟩
     rcases f5 with e | e <;> simp only [e]
     · exact hcl.append (Clean.single (by simp) (by simp) (by simp) (by simp))
     · exact hcl
@@ -169,7 +180,8 @@ theorem request_fields (s : Sess) (k : Kind) (mkReq : FutId → Req) (mkMsg : Re
       (request s k mkReq mkMsg keep snd).1.futs.length = s.futs.length + 1 ∧
       (∀ x ∈ (request s k mkReq mkMsg keep snd).1.futs, x.oldIn s ∨ x.ok) ∧
       ((request s k mkReq mkMsg keep snd).1.tbl k).Sublist (aset s.drawId.2 (mkReq s.futs.length) (s.tbl k)) ∧
-      (∀ k', k' ≠ k → (request s k mkReq mkMsg keep snd).1.tbl k' = s.tbl k') := by
+      (∀ k', k' ≠ k → (request s k mkReq mkMsg keep snd).1.tbl k' = s.tbl k') ∧
+      (request s k mkReq mkMsg keep snd).1.cbq = s.cbq := by
   have hnew : ∀ x ∈ s.futs ++ [({ kind := k } : Fut)], x.oldIn s ∨ x.ok := by
     intro x hx
     rcases List.mem_append.mp hx with h | h
@@ -185,12 +197,12 @@ theorem request_fields (s : Sess) (k : Kind) (mkReq : FutId → Req) (mkMsg : Re
       · exact Or.inr (by simpa [Fut.ok] using h)
   cases snd <;> cases keep <;>
     simp only [request, sendReq_ok, sendReq_fail_keep, sendReq_fail_forget]
-  · refine ⟨by simp, by simp, by simp, fun x hx => hnew x (by simpa using hx), by simp, fun k' hk' => by simp [setTbl_tbl_ne hk']⟩
-  · refine ⟨by simp, by simp, by simp, fun x hx => hnew x (by simpa using hx), by simp, fun k' hk' => by simp [setTbl_tbl_ne hk']⟩
-  · refine ⟨by simp, by simp, by simp, fun x hx => hnew' _ _ x (by simpa using hx), ?_, fun k' hk' => by simp [setTbl_tbl_ne hk']⟩
+  · refine ⟨by simp, by simp, by simp, fun x hx => hnew x (by simpa using hx), by simp, fun k' hk' => by simp [setTbl_tbl_ne hk'], by simp⟩
+  · refine ⟨by simp, by simp, by simp, fun x hx => hnew x (by simpa using hx), by simp, fun k' hk' => by simp [setTbl_tbl_ne hk'], by simp⟩
+  · refine ⟨by simp, by simp, by simp, fun x hx => hnew' _ _ x (by simpa using hx), ?_, fun k' hk' => by simp [setTbl_tbl_ne hk'], by simp⟩
     simp only [setTbl_tbl_self, unwatch_tbl, newFut_tbl, drawId_tbl, newFut_snd, drawId_futs]
     exact adel_sublist _ _
-  · refine ⟨by simp, by simp, by simp, fun x hx => hnew' _ _ x hx, by simp, fun k' hk' => by simp [setTbl_tbl_ne hk']⟩
+  · refine ⟨by simp, by simp, by simp, fun x hx => hnew' _ _ x hx, by simp, fun k' hk' => by simp [setTbl_tbl_ne hk'], by simp⟩
 
 theorem request_inv {s : Sess} (h : Inv s) (k : Kind) (mkReq : FutId → Req) (mkMsg : ReqId → OutMsg)
     (hr : ∀ f, (mkReq f).fut = f) (hm : ∀ id, isReqType (mkMsg id).typ = true ∧ (mkMsg id).req = id)
@@ -198,9 +210,9 @@ theorem request_inv {s : Sess} (h : Inv s) (k : Kind) (mkReq : FutId → Req) (m
     InvRel s (request s k mkReq mkMsg keep snd).2 (request s k mkReq mkMsg keep snd).1 := by
   refine ⟨request_idrel h.1 k mkReq mkMsg hm keep snd, ?_⟩
   have hid := drawId_id s h.1
-  obtain ⟨hi, hs, hl, hc, ht0, ht⟩ := request_fields s k mkReq mkMsg keep snd
+  obtain ⟨hi, hs, hl, hc, ht0, ht, hcbq⟩ := request_fields s k mkReq mkMsg keep snd
   rw [hid] at ht0
-  refine ⟨⟨?_, h.2.count.of_forall hc, ?_, ?_⟩, ?_, by omega⟩
+  refine ⟨⟨?_, h.2.count.of_forall hc, ?_, ?_, by rw [CbqOk, hcbq]; exact h.2.cbq⟩, ?_, by omega⟩
   · refine h.2.keys.draw hi k ?_ (fun k' hk' => by rw [ht k' hk']; exact List.Sublist.refl _)
     exact List.Sublist.trans (ht0.map _ : (akeys _).Sublist (akeys _)) (akeys_aset_sublist _ _ _)
   · refine h.2.subs.of_new hl (fun x => ?_)
@@ -252,12 +264,13 @@ theorem futureSuccess_inv {s : Sess} (h : Inv s) (k : Kind) (o : Outcome) :
     InvRel s (futureSuccess s k o).2 (futureSuccess s k o).1 := by
   have hq := h.1.2
   unfold futureSuccess
-  obtain ⟨f1, f2, f3, f4, f5⟩ := emitCb_fields { s with futs := s.futs ++ [{ kind := k, cell := some o, count := 1 }] }
+  obtain ⟨f1, f2, f3, f4, f5, _⟩ := emitCb_fields { s with futs := s.futs ++ [{ kind := k, cell := some o, count := 1 }] }
     (.callback s.futs.length o)
   refine ⟨?_, ?_, ?_, ?_⟩
   · refine IdRel.of_same h.1 ?_ ?_ ?_ ?_ <;> id_frame
   · refine Inv'.congr (s := { s with futs := s.futs ++ [{ kind := k, cell := some o, count := 1 }] }) ?_ f1 f2 f3 f4
-    refine h.2.shrink rfl (fun k => by cases k <;> exact List.Sublist.refl _) (fun x => Nat.le_refl _) (by simp) ?_
+      (emitCb_cbq (s := { s with futs := s.futs ++ [{ kind := k, cell := some o, count := 1 }] }) h.2.cbq (by simp [cleanB, isInvoke]))
+    refine h.2.shrink rfl (fun k => by cases k <;> exact List.Sublist.refl _) (fun x => Nat.le_refl _) (by simp) ?_ h.2.cbq
     intro x hx
     rcases List.mem_append.mp hx with hx | hx
     · exact Or.inl (Fut.oldIn_of_mem hx)
@@ -284,13 +297,13 @@ theorem apiStep_inv {s : Sess} (a : Api) (h : Inv s) : InvRel s (apiStep s a).2 
         cases r
         · rw [sendReq_ok]
           refine ⟨⟨h.2.keys.draw (k0 := .publish) (by simp) (by simp)
-              (fun k _ => by simp), fun x hx => h.2.count x hx, ?_, ?_⟩, ?_, Nat.le_refl _⟩
+              (fun k _ => by simp), fun x hx => h.2.count x hx, ?_, ?_, h.2.cbq⟩, ?_, Nat.le_refl _⟩
           · exact h.2.subs.of_le (Nat.le_refl _) (fun x => by simp [occ])
           · exact h.2.futb.of (Nat.le_refl _) (fun k e he => Or.inl (by simpa using he))
           · intro x hx; simp at hx; rcases hx with hx | hx <;> subst hx <;> simp
         · simp only [sendReq]
           refine ⟨⟨h.2.keys.draw (k0 := .publish) (by simp) ?_ (fun k hk => by simp [setTbl_tbl_ne hk]),
-              fun x hx => h.2.count x (by simpa using hx), ?_, ?_⟩, ?_, by simp⟩
+              fun x hx => h.2.count x (by simpa using hx), ?_, ?_, by simpa [CbqOk] using h.2.cbq⟩, ?_, by simp⟩
           · simp only [setTbl_tbl_self, drawId_tbl]
             exact (akeys_adel_sublist _ _).trans (List.sublist_append_left _ _)
           · refine h.2.subs.of_le (by simp) (fun x => ?_)
@@ -320,7 +333,7 @@ theorem apiStep_inv {s : Sess} (a : Api) (h : Inv s) : InvRel s (apiStep s a).2 
       · exact raise_inv h (by simp) (by simp)
       · have h1 : Inv { s with subs := aupd sid (removeObj obj ((alookup sid s.subs).getD [])) s.subs } := by
           refine ⟨h.1.congr rfl rfl rfl, h.2.shrink rfl (fun k => by cases k <;> exact List.Sublist.refl _) (fun x => ?_) (Nat.le_refl _)
-            (fun x hx => Or.inl (Fut.oldIn_of_mem hx))⟩
+            (fun x hx => Or.inl (Fut.oldIn_of_mem hx)) h.2.cbq⟩
           exact count_objsOf_aupd_le x s.subs sid (removeObj_sublist _ _)
         split
         · exact InvRel.congr_left rfl rfl (request_inv h1 _ _ _ (fun _ => rfl) (fun _ => ⟨rfl, rfl⟩) _ _)
@@ -349,7 +362,7 @@ theorem apiStep_inv {s : Sess} (a : Api) (h : Inv s) : InvRel s (apiStep s a).2 
             have := h.2.count x hmem
             simpa [Fut.ok, hc] using this
           have key : Inv' { s with futs := s.futs.set f { x with cell := some .cancelled, count := x.count + 1 } } := by
-            refine h.2.shrink rfl (fun k => by cases k <;> exact List.Sublist.refl _) (fun x => Nat.le_refl _) (by simp) ?_
+            refine h.2.shrink rfl (fun k => by cases k <;> exact List.Sublist.refl _) (fun x => Nat.le_refl _) (by simp) ?_ h.2.cbq
             intro y hy
             rcases List.mem_or_eq_of_mem_set hy with hy | hy
             · exact Or.inl (Fut.oldIn_of_mem hy)
@@ -361,14 +374,22 @@ theorem apiStep_inv {s : Sess} (a : Api) (h : Inv s) : InvRel s (apiStep s a).2 
           unfold cancelDo
           split
           · exact ⟨key, hmsgs.append (Clean.of_all (by simp [cleanB])), by simp⟩
-          · exact ⟨Inv'.congr key (fun k => by cases k <;> rfl) rfl rfl rfl, Clean.of_all (by simp [cleanB]), by simp⟩
+          · refine ⟨Inv'.congr key (fun k => by cases k <;> rfl) rfl rfl rfl ?_, Clean.of_all (by simp [cleanB]), by simp⟩
+            intro y hy
+            simp only [List.mem_append, List.mem_singleton] at hy
+            rcases hy with (hy | hy) | hy
+            · exact h.2.cbq y hy
+            · unfold cancelMsgs at hy; split at hy
+              · split at hy <;> simp at hy; subst hy; simp [cleanB, isInvoke]
+              · simp at hy
+            · subst hy; simp [cleanB, isInvoke]
   | join =>
     simp only [apiStep, apiJoin]
     split
     · exact raise_inv h (by simp) (by simp)
     · split
       · exact raise_inv h (by simp) (by simp)
-      · exact ⟨IdRel.of_same h.1 rfl rfl h.1.2 rfl, h.2.congr (fun k => by cases k <;> rfl) rfl rfl rfl,
+      · exact ⟨IdRel.of_same h.1 rfl rfl h.1.2 rfl, h.2.congr (fun k => by cases k <;> rfl) rfl rfl rfl h.2.cbq,
           Clean.single (by simp) (by simp) (by simp) (by simp), Nat.le_refl _⟩
   | leave =>
     simp only [apiStep, apiLeave]
@@ -376,7 +397,281 @@ theorem apiStep_inv {s : Sess} (a : Api) (h : Inv s) : InvRel s (apiStep s a).2 
     · exact InvRel.refl h
     · split
       · exact InvRel.refl h
-      · exact ⟨IdRel.of_same h.1 rfl rfl h.1.2 rfl, h.2.congr (fun k => by cases k <;> rfl) rfl rfl rfl,
+      · exact ⟨IdRel.of_same h.1 rfl rfl h.1.2 rfl, h.2.congr (fun k => by cases k <;> rfl) rfl rfl rfl h.2.cbq,
           Clean.single (by simp) (by simp) (by simp) (by simp), Nat.le_refl _⟩
+
+
+/-! ### messages -/
+
+theorem invLift : Lift InvRel Inv where
+  refl := InvRel.refl
+  trans := InvRel.trans
+  post := fun _ r => r.post
+  caught := fun r => ⟨idLift.caught r.1, r.2.1, r.2.2.1.map_toCaught, r.2.2.2⟩
+  api := fun a h => apiStep_inv a h
+  userError := fun h => emitCb_inv h rfl (by simp [cleanB, isInvoke])
+  invoke := fun _ _ h _ => out_inv h rfl (Clean.of_all (by simp [cleanB]))
+
+theorem rejectList_inv {s : Sess} (h : Inv s) (o : Outcome) (fs : List FutId) (hb : ∀ f ∈ fs, (f : Nat) < s.futs.length) :
+    InvRel s (rejectList s o fs).2 (rejectList s o fs).1 := by
+  induction fs generalizing s with
+  | nil => exact InvRel.refl h
+  | cons f fs ih =>
+    rw [rejectList_cons]
+    split
+    · exact ih h (fun g hg => hb g (List.mem_cons_of_mem _ hg))
+    · next hc =>
+      have h1 := settle_inv h (hb f List.mem_cons_self) (by simpa using hc) o
+      refine InvRel.trans h1 (ih h1.post (fun g hg => ?_))
+      exact Nat.lt_of_lt_of_le (hb g (List.mem_cons_of_mem _ hg)) h1.2.2.2
+
+theorem clearTables_inv {s : Sess} (h : Inv s) : Inv s.clearTables := by
+  refine ⟨h.1.congr rfl rfl rfl, h.2.shrink rfl (fun k => by cases k <;> exact List.nil_sublist _) (fun x => Nat.le_refl _)
+    (Nat.le_refl _) (fun x hx => Or.inl (Fut.oldIn_of_mem hx)) h.2.cbq⟩
+
+theorem outstanding_bound {s : Sess} (h : Inv s) : ∀ f ∈ s.outstanding, (f : Nat) < s.futs.length := by
+  intro f hf
+  simp only [Sess.outstanding, List.mem_map, List.mem_flatMap] at hf
+  obtain ⟨e, ⟨k, _, he⟩, rfl⟩ := hf
+  exact h.2.futb k e he
+
+theorem onLeaveDefault_inv {s : Sess} (h : Inv s) (reason : Nat) :
+    InvRel s (onLeaveDefault s reason).2 (onLeaveDefault s reason).1 := by
+  unfold onLeaveDefault
+  have h1 := rejectList_inv (clearTables_inv h) (.closed reason) s.outstanding (outstanding_bound h)
+  have h1' : InvRel s _ _ := InvRel.congr_left (s1 := s.clearTables) rfl rfl h1
+  simp only []
+  split
+  · exact InvRel.trans h1' (emitCb_inv h1.post rfl (by simp [cleanB, isInvoke]))
+  · exact h1'
+
+/-- what a reply branch knows about the popped record: its future exists, is still open, and — for a subscribe
+request — no longer occurs anywhere, so it may be attached -/
+structure Popped (s1 : Sess) (kind : Kind) (r : Req) : Prop where
+  bound : (r.fut : Nat) < s1.futs.length
+  open_ : s1.called r.fut = false
+  free : kind = .subscribe → ∀ x : Nat, occ x s1 + (if x = r.fut then 1 else 0) ≤ 1
+
+theorem pop_inv {s : Sess} (h : Inv s) {kind : Kind} {id : ReqId} {r : Req} (hr : alookup id (s.tbl kind) = some r) :
+    Inv (s.setTbl kind (adel id (s.tbl kind))) ∧ (r.fut : Nat) < s.futs.length ∧
+      (kind = .subscribe → ∀ x : Nat, occ x (s.setTbl kind (adel id (s.tbl kind))) + (if x = r.fut then 1 else 0) ≤ 1) := by
+  refine ⟨⟨h.1.congr (by simp) (by simp) (by simp), ?_⟩, h.2.futb kind _ (alookup_some_mem hr), ?_⟩
+  · refine h.2.shrink (by simp) (fun k => ?_) (fun x => by simp) (by simp) (fun x hx => Or.inl (Fut.oldIn_of_mem (by simpa using hx)))
+      (by simpa [CbqOk] using h.2.cbq)
+    rw [setTbl_tbl]; split
+    · next e => subst e; exact adel_sublist _ _
+    · exact List.Sublist.refl _
+  · intro e x; subst e
+    have := count_futsOf_pop x hr
+    have := h.2.subs.1 x
+    simp only [occ, setTbl_subs, setTbl_tbl_self] at this ⊢
+    omega
+
+theorem popReply_inv {s : Sess} (h : Inv s) (kind : Kind) (id : ReqId) (k : Sess → Req → Sess × List SOut)
+    (hk : ∀ s1 r, Inv s1 → s1.issued = s.issued → s1.futs.length = s.futs.length → Popped s1 kind r →
+      InvRel s1 (k s1 r).2 (k s1 r).1) :
+    InvRel s (popReply s kind id k).2 (popReply s kind id k).1 := by
+  unfold popReply
+  split
+  · exact raise_inv h (by simp) (by simp)
+  · next r hr =>
+    obtain ⟨h1, hb, hfree⟩ := pop_inv h hr
+    simp only []
+    split
+    · exact InvRel.congr_left (by simp) (by simp) (InvRel.refl h1)
+    · next hc =>
+      exact InvRel.congr_left (by simp) (by simp)
+        (hk _ r h1 (by simp) (by simp) ⟨by simpa using hb, by simpa using hc, hfree⟩)
+
+/-- `settle` after an update of fields the primitives do not read (`subs`, `regs`) -/
+theorem settle_inv' {s0 s : Sess} (h : Inv s) (e1 : s.nextId = s0.nextId) (e2 : s.issued = s0.issued) (e3 : s.cbq = s0.cbq)
+    (e4 : s.futs.length = s0.futs.length) {f : Nat} (hf : f < s.futs.length) (hc : s.called f = false) (o : Outcome) :
+    InvRel s0 (settle s f o).2 (settle s f o).1 :=
+  InvRel.congr_left e2.symm e4.symm (settle_inv h hf hc o)
+
+
+theorem errorKind_some {s : Sess} {t : Nat} {id : ReqId} {k : Kind} (h : errorKind s t id = some k) :
+    k.code = t ∧ (alookup id (s.tbl k)).isSome = true := by
+  have := List.find?_some h
+  simpa using this
+
+/-- attaching the popped `Subscription` under subscription id `sub` -/
+theorem attach_inv {s1 : Sess} (h1 : Inv s1) {r : Req} (hp : Popped s1 .subscribe r) (sub : SubId) (rec_ : SubRec)
+    (hrec : rec_.obj = r.fut) :
+    Inv { s1 with subs := match alookup sub s1.subs with
+                          | none => s1.subs ++ [(sub, [rec_])]
+                          | some l => aupd sub (l ++ [rec_]) s1.subs } := by
+  refine ⟨h1.1.congr rfl rfl rfl, ⟨h1.2.keys.same rfl (fun k => by cases k <;> exact List.Sublist.refl _),
+    fun x hx => h1.2.count x hx, ?_, h1.2.futb.of (Nat.le_refl _) (fun k e he => Or.inl (by cases k <;> exact he)), h1.2.cbq⟩⟩
+  have hocc : ∀ x : Nat, occ x { s1 with subs := match alookup sub s1.subs with
+                          | none => s1.subs ++ [(sub, [rec_])]
+                          | some l => aupd sub (l ++ [rec_]) s1.subs } = occ x s1 + (if x = r.fut then 1 else 0) := by
+    intro x
+    have e : ({ s1 with subs := match alookup sub s1.subs with
+                          | none => s1.subs ++ [(sub, [rec_])]
+                          | some l => aupd sub (l ++ [rec_]) s1.subs } : Sess).tbl .subscribe = s1.tbl .subscribe := rfl
+    simp only [occ, e]
+    cases hl : alookup sub s1.subs with
+    | none => simp only []; rw [count_objsOf_append_new, hrec]; omega
+    | some l => simp only []; rw [count_objsOf_aupd_append x rec_ hl, hrec]; omega
+  constructor
+  · intro x; rw [hocc]; exact hp.free rfl x
+  · intro x hx
+    rw [hocc] at hx
+    by_cases e : x = r.fut
+    · subst e; exact hp.bound
+    · simp only [e, if_false, Nat.add_zero] at hx
+      exact h1.2.subs.2 x hx
+
+theorem onEstablished_inv {s : Sess} (h : Inv s) (beh : List HAct) (m : InMsg) :
+    InvRel s (onEstablished s beh m).2 (onEstablished s beh m).1 := by
+  cases m with
+  | goodbye =>
+    simp only [onEstablished]
+    have h0 : Inv { s with sessionId := none } :=
+      ⟨h.1.congr rfl rfl rfl, h.2.congr (fun k => by cases k <;> rfl) rfl rfl rfl h.2.cbq⟩
+    have h1 := InvRel.congr_left (s := s) rfl rfl (onLeaveDefault_inv h0 0)
+    have h2 : InvRel s (if s.goodbyeSent then [] else [SOut.send { typ := .goodbye }]) s := by
+      split
+      · exact InvRel.refl h
+      · exact out_inv h rfl (Clean.of_all (by simp [cleanB]))
+    exact InvRel.trans h2 h1
+  | event sub pub p =>
+    simp only [onEstablished]
+    split
+    · exact raise_inv h (by simp) (by simp)
+    · exact invLift.dispatch _ h _ _ _ _ _
+  | published id pub =>
+    simp only [onEstablished]
+    exact popReply_inv h _ _ _ (fun s1 r h1 _ _ hp => settle_inv h1 hp.bound hp.open_ _)
+  | subscribed id sub =>
+    simp only [onEstablished]
+    refine popReply_inv h _ _ _ (fun s1 r h1 _ _ hp => ?_)
+    have h2 := attach_inv h1 hp sub { obj := r.fut, h := r.handler, detailsArg := r.detailsArg, topic := r.uri } rfl
+    exact settle_inv' h2 rfl rfl rfl rfl hp.bound hp.open_ _
+  | unsubscribed id =>
+    simp only [onEstablished]
+    refine popReply_inv h _ _ _ (fun s1 r h1 _ _ hp => ?_)
+    have h2 : Inv { s1 with subs := adel r.target s1.subs } :=
+      ⟨h1.1.congr rfl rfl rfl, h1.2.shrink rfl (fun k => by cases k <;> exact List.Sublist.refl _)
+        (fun x => count_objsOf_adel x _ _) (Nat.le_refl _) (fun x hx => Or.inl (Fut.oldIn_of_mem hx)) h1.2.cbq⟩
+    exact settle_inv' h2 rfl rfl rfl rfl hp.bound hp.open_ _
+  | result id p progress =>
+    simp only [onEstablished]
+    split
+    · exact raise_inv h (by simp) (by simp)
+    · next r hr =>
+      split
+      · split
+        · exact raise_inv h (by simp) (by simp)
+        · split
+          · exact InvRel.refl h
+          · split
+            · split
+              · exact InvRel.trans (out_inv h (os := [_]) rfl (Clean.of_all (by simp [cleanB]))) (invLift.runAct h none _)
+              · exact raise_inv h (by simp) (by simp)
+            · exact InvRel.trans (out_inv h (os := [_]) rfl (Clean.of_all (by simp [cleanB]))) (invLift.runAct h none _)
+      · obtain ⟨h1, hb, _⟩ := pop_inv (kind := .call) h hr
+        split
+        · exact InvRel.congr_left rfl rfl (InvRel.refl h1)
+        · next hc =>
+          have hc' : (s.setTbl Kind.call (adel id (s.tbl Kind.call))).called r.fut = false := by
+            simp only [Bool.not_eq_true] at hc; exact hc
+          exact InvRel.congr_left rfl rfl (settle_inv h1 hb hc' _)
+  | registered id reg =>
+    simp only [onEstablished]
+    refine popReply_inv h _ _ _ (fun s1 r h1 _ _ hp => ?_)
+    split
+    · have h2 : Inv { s1 with regs := s1.regs ++ [(reg, { obj := r.fut, proc := r.uri, endpoint := r.handler, detailsArg := r.detailsArg })] } :=
+        ⟨h1.1.congr rfl rfl rfl, h1.2.congr (fun k => by cases k <;> rfl) rfl rfl rfl h1.2.cbq⟩
+      exact settle_inv' h2 rfl rfl rfl rfl hp.bound hp.open_ _
+    · exact raise_inv h1 (by simp) (by simp)
+  | unregistered id reg =>
+    simp only [onEstablished]
+    split
+    · split
+      · exact raise_inv h (by simp) (by simp)
+      · exact InvRel.refl h
+    · refine popReply_inv h _ _ _ (fun s1 r h1 _ _ hp => ?_)
+      have h2 : Inv { s1 with regs := adel r.target s1.regs } :=
+        ⟨h1.1.congr rfl rfl rfl, h1.2.congr (fun k => by cases k <;> rfl) rfl rfl rfl h1.2.cbq⟩
+      exact settle_inv' h2 rfl rfl rfl rfl hp.bound hp.open_ _
+  | error reqType id uri p =>
+    simp only [onEstablished]
+    split
+    · exact raise_inv h (by simp) (by simp)
+    · next k hk =>
+      have hsome := (errorKind_some hk).2
+      split
+      · next hn => rw [hn] at hsome; simp at hsome
+      · next r hr =>
+        obtain ⟨h1, hb, _⟩ := pop_inv h hr
+        split
+        · exact InvRel.congr_left (by simp) (by simp) (InvRel.refl h1)
+        · next hc => exact InvRel.congr_left (by simp) (by simp) (settle_inv h1 (by simpa using hb) (by simpa using hc) _)
+  | invocation id reg p =>
+    simp only [onEstablished]
+    split
+    · exact raise_inv h (by simp) (by simp)
+    · split
+      · exact raise_inv h (by simp) (by simp)
+      · exact out_inv h rfl (Clean.of_all (by simp [cleanB]))
+  | interrupt id => exact InvRel.refl h
+  | welcome sid => exact raise_inv h (by simp) (by simp)
+  | abort => exact raise_inv h (by simp) (by simp)
+  | challenge => exact raise_inv h (by simp) (by simp)
+  | other => exact raise_inv h (by simp) (by simp)
+
+theorem step_inv {s : Sess} (e : SEv) (h : Inv s) : InvRel s (step s e).2 (step s e).1 := by
+  cases e with
+  | api a => exact apiStep_inv a h
+  | msg m beh =>
+    simp only [step, onMessage]
+    split
+    · split
+      · exact ⟨IdRel.of_same h.1 rfl rfl h.1.2 rfl, h.2.congr (fun k => by cases k <;> rfl) rfl rfl rfl h.2.cbq, Clean.nil, Nat.le_refl _⟩
+      · exact out_inv h rfl (Clean.of_all (by simp [cleanB]))
+      · exact out_inv h rfl (Clean.of_all (by simp [cleanB]))
+      · exact raise_inv h (by simp) (by simp)
+    · exact onEstablished_inv h beh m
+  | pump =>
+    refine ⟨step_idrel .pump h.1, ?_⟩
+    simp only [step]
+    refine ⟨h.2.congr (fun k => by cases k <;> rfl) rfl rfl rfl (by simp [CbqOk]), ?_, Nat.le_refl _⟩
+    intro x hx
+    have := (h.2.cbq x hx).1
+    refine ⟨?_, ?_, ?_, ?_⟩ <;> intro e <;> subst e <;> simp [cleanB] at this
+  | open_ =>
+    simp only [step]
+    have h0 : Inv { s with transport := true, goodbyeSent := false } :=
+      ⟨h.1.congr rfl rfl rfl, h.2.congr (fun k => by cases k <;> rfl) rfl rfl rfl h.2.cbq⟩
+    exact InvRel.congr_left rfl rfl (emitCb_inv h0 rfl (by simp [cleanB, isInvoke]))
+  | closed =>
+    simp only [step]
+    split
+    · have h0 : Inv { s with transport := false, sessionId := none } :=
+        ⟨h.1.congr rfl rfl rfl, h.2.congr (fun k => by cases k <;> rfl) rfl rfl rfl h.2.cbq⟩
+      exact InvRel.congr_left rfl rfl (onLeaveDefault_inv h0 1)
+    · have h0 : Inv { s with transport := false } :=
+        ⟨h.1.congr rfl rfl rfl, h.2.congr (fun k => by cases k <;> rfl) rfl rfl rfl h.2.cbq⟩
+      exact InvRel.congr_left rfl rfl (rejectList_inv (clearTables_inv h0) _ _ (outstanding_bound h0))
+
+
+theorem init_inv (mode : Sched) : Inv (init mode) := by
+  refine ⟨init_idinv mode, ?_, ?_, ?_, ?_, ?_⟩
+  · intro _
+    have he : ∀ k, akeys ((init mode).tbl k) = [] := fun k => by cases k <;> rfl
+    refine ⟨fun k id hid => ?_, fun k => ?_, fun k1 k2 id h1 => ?_⟩
+    · rw [he] at hid; simp at hid
+    · rw [he]; exact List.nodup_nil
+    · rw [he] at h1; simp at h1
+  · intro x hx; simp [init] at hx
+  · constructor <;> intro x <;> simp [occ, init, objsOf, futsOf, Sess.tbl]
+  · intro k e he; cases k <;> simp [init, Sess.tbl] at he
+  · intro o ho; simp [init] at ho
+
+/-- the invariant holds after every history, and no history outputs a double completion or an impossible branch -/
+theorem run_inv {s : Sess} (h : Inv s) (hist : List SEv) : InvRel s (runOuts s hist) (runState s hist) :=
+  run_lift (R := InvRel) (P := Inv) InvRel.refl InvRel.trans (fun _ r => r.post) (fun e h => step_inv e h) h hist
 
 end Abverif.Session
